@@ -257,3 +257,168 @@ def h_read_keeps_querying(nv: int, s0: int, r0: int, k0: int, c0: int, d0: int, 
         if decision != "more":
             return "neither finishing nor asking more servers"
     return True
+
+
+# ---- answers are counted only after they were merged -------------------------------------------------------------
+
+from allmydata.mutable.common import MODE_WRITE as _MW
+NOTES.append("answer_accounting: MDMFSlotReadProxy in allmydata.mutable.servermap replaced by a reader whose get_verinfo() returns a "
+             "harness-owned Deferred (share validation completes when the schedule says so); rsa.verify_signature accepts; "
+             "fireEventually is a harness queue drained after every schedule action; time is constant; _do_read returns a harness Deferred")
+_AQ = []
+
+
+def _fire_eventually(value=None):
+    d = defer.Deferred()
+    _AQ.append((d, value))
+    return d
+
+
+class _Reader(object):
+    pending = {}
+
+    def __init__(self, ss, storage_index, shnum, data, data_is_everything=False):
+        self.key = (ss, shnum)
+        self.shnum = shnum
+
+    def get_verinfo(self):
+        d = defer.Deferred()
+        _Reader.pending[self.key] = d
+        return d
+
+    def get_signature(self):
+        return defer.succeed(b"signature")
+
+
+sm_mod.MDMFSlotReadProxy = _Reader
+sm_mod.fireEventually = _fire_eventually
+sm_mod.rsa = NS(verify_signature=lambda pubkey, sig, prefix: None)
+sm_mod.time = NS(time=lambda: 1000.0)
+# _got_results is executed as it is (its log calls are keyword-style; recompiling it makes CrossHair's source lookup of
+# its nested lambdas fail with tokenize.TokenError)
+hlib.encoded(sm_mod.ServermapUpdater._got_results)
+for _n in ("_got_signature_one_share", "_check_for_done", "_do_query", "_send_more_queries", "_query_failed"):
+    hlib.strip_method(sm_mod.ServermapUpdater, _n)
+
+
+def _drain_aq():
+    turns = 0
+    while _AQ:
+        (d, v) = _AQ.pop(0)
+        d.callback(v)
+        turns += 1
+        if turns > 50:
+            raise hlib.HarnessError("eventual queue does not drain")
+
+
+def h_answer_accounting(sa: int, sb: int, c0: int, c1: int, c2: int, c3: int) -> bool:
+    """
+    pre: 1 <= sa <= 2 and 1 <= sb <= 2
+    post: _ == True
+    """
+    sa, sb = _pin(sa, 1, 2), _pin(sb, 1, 2)
+    mode = {"read": MODE_READ, "check": MODE_CHECK, "write": _MW}[B["mode"]]
+    del _AQ[:]
+    _Reader.pending = {}
+    A, Bs, C = mm.Srv("A"), mm.Srv("B"), mm.Srv("C")
+    for s in (A, Bs, C):
+        s.get_storage_server = (lambda s=s: s)      # the storage server handle identifies the server in the fake reader
+    vinfo = {}
+    for (srv, seq) in ((A, sa), (Bs, sb)):
+        v = mm.verinfo(seq, 0, 1)
+        vinfo[srv] = v[:8] + (dict(v[8]),)         # readers hand out the offsets as a dict
+    answers = {A: defer.Deferred(), Bs: defer.Deferred(), C: defer.Deferred()}
+    u = sm_mod.ServermapUpdater.__new__(sm_mod.ServermapUpdater)
+    decisions = []
+    u.log = lambda *a, **kw: 0
+    u.mode = mode
+    u._running = True
+    u._status = _NullStatus()
+    u._node = NS(get_pubkey=lambda: "pubkey")
+    u._need_privkey = False
+    u.fetch_update_data = False
+    u._add_lease = False
+    u._servermap = sm_mod.ServerMap()
+    u._storage_index = b"S" * 16
+    u._read_size = 1000
+    u._valid_versions = set()
+    u._good_servers, u._empty_servers, u._bad_servers, u._servers_with_shares = set(), set(), set(), set()
+    u._queries_outstanding = set()
+    u._must_query = set([A, Bs]) if mode == MODE_CHECK else set()
+    u._queries_completed = 0
+    u.num_servers_to_query = 2
+    u.extra_servers = [C]
+    u.full_serverlist = [A, Bs, C]
+    u.EPSILON = 1
+    u._last_failure = None
+    u._do_read = lambda server, si, shnums, readv: answers[server]
+    arrived = []
+
+    def _snapshot(what):
+        known = u._servermap.get_known_shares()
+        unmerged = [s.name for s in arrived if (s, 0) not in known]
+        best = u._servermap.best_recoverable_version()
+        decisions.append((what, unmerged, None if best is None else best[0], [s.name for s in arrived]))
+    u._done = lambda: _snapshot("done")
+    real_more = sm_mod.ServermapUpdater._send_more_queries
+    u._fatal_error = lambda f: decisions.append(("fatal", str(f), None, None))
+    u._got_corrupt_share = lambda e, shnum, server, data, lp: decisions.append(("fatal", "share judged corrupt: %r" % (e,), None, None))
+    # the initial queries, as update() sends them
+    u._do_query(A, u._storage_index, u._read_size)
+    u._do_query(Bs, u._storage_index, u._read_size)
+    if u._queries_outstanding != set([A, Bs]):
+        return "queries not recorded as outstanding"
+    # schedule: each answer arrives, and each server's share validation completes, in any order
+    done_a = {"arrA": False, "arrB": False, "valA": False, "valB": False}
+    srv_of = {"A": A, "B": Bs}
+    t = 0
+    choices = [c0, c1, c2, c3]
+    while True:
+        enabled = []
+        for x in ("A", "B"):
+            if not done_a["arr" + x]:
+                enabled.append("arr" + x)
+            elif not done_a["val" + x] and (srv_of[x], 0) in _Reader.pending:
+                enabled.append("val" + x)
+        if not enabled:
+            break
+        c = choices[t]
+        t += 1
+        pick = enabled[-1]
+        for idx in range(len(enabled) - 1):
+            if c == idx:
+                pick = enabled[idx]
+                break
+        done_a[pick] = True
+        srv = srv_of[pick[3]]
+        if pick.startswith("arr"):
+            arrived.append(srv)
+            answers[srv].callback({0: [b"sharedata"]})
+        else:
+            _Reader.pending[(srv, 0)].callback(vinfo[srv])
+        _drain_aq()
+    for dcs in decisions:
+        if dcs[0] == "fatal":
+            return "updater hit a fatal error: %s" % dcs[1]
+        if dcs[0] == "done":
+            if dcs[1]:
+                return "the update finished while the answer of server(s) %s had arrived but was not yet merged into the servermap" % dcs[1]
+            newest = 0
+            for name in dcs[3]:
+                seq = sa if name == "A" else sb
+                if seq > newest:
+                    newest = seq
+            if dcs[2] != newest:
+                return "the map handed out does not contain the newest version among the answers received"
+    if not (done_a["valA"] and done_a["valB"]):
+        return "a share validation was never requested"
+    known = u._servermap.get_known_shares()
+    if (A, 0) not in known or (Bs, 0) not in known:
+        return "an answer was never merged"
+    if u._queries_completed != 2 and C not in u._queries_outstanding:
+        return "completed-query counter wrong after both answers were processed"
+    if A in u._queries_outstanding or Bs in u._queries_outstanding:
+        return "processed answers still counted as outstanding"
+    if mode == MODE_CHECK and decisions and decisions[-1][0] == "done" and (A in u._must_query or Bs in u._must_query):
+        return "MODE_CHECK finished with must-query servers pending"
+    return True
